@@ -200,6 +200,7 @@ var fixedErrClass = []struct{ sub, class string }{
 	{"next segment not found or not ready yet", "ENextNotFound"},
 	{"playback is too late", "ETooLate"},
 	{"preload hint disappeared", "EHintGone"},
+	{"invalid time scale", "EInvalidTimeScale"}, // only with the proposed repair
 }
 
 // endClasses: the Coq oend terms the observed end is compatible with. Error texts that come
